@@ -33,8 +33,28 @@ def one(d):
             if tid in stable and any(ch.tag in ("failure", "error", "skipped") for ch in tc):
                 bad.append(tid)
         os.remove(xml)
+        # a stable test that fails once under machine load is re-run alone (up to 3 times)
+        flaky = []
+        for tid in list(bad):
+            cls, _, meth = tid.partition("::")
+            parts = cls.split(".")
+            # src.twisted.x.test.test_y.Class -> src/twisted/x/test/test_y.py::Class::meth
+            for cut in range(len(parts), 0, -1):
+                path = os.path.join(wt, *parts[:cut]) + ".py"
+                if os.path.exists(path):
+                    node = "/".join(parts[:cut]) + ".py" + "".join("::" + c for c in parts[cut:]) + "::" + meth
+                    break
+            else:
+                continue
+            for attempt in range(3):
+                r = subprocess.run(["/venv/bin/python", "-m", "pytest", "-q", "-p", "no:cacheprovider", "--timeout=900", node],
+                                   cwd=wt, env=env, capture_output=True, text=True)
+                if r.returncode == 0:
+                    bad.remove(tid)
+                    flaky.append(tid)
+                    break
         res = {"summary": tail, "stable_seen": len(seen & stable), "stable_total": len(stable),
-               "stable_not_passing": sorted(bad), "stable_missing": len(stable - seen),
+               "stable_not_passing": sorted(bad), "passed_when_rerun_alone": flaky, "stable_missing": len(stable - seen),
                "repo_head": subprocess.run(["git", "-C", "/repo", "rev-parse", "--short", "HEAD"], capture_output=True, text=True).stdout.strip()}
         json.dump(res, open(os.path.join(d, "suite_result.json"), "w"), indent=1)
         return name, res
